@@ -314,6 +314,29 @@ FIXED_SOUPS = ['', ' ', '\n', '\t\n', 'x', '0', '&', '<', '%', '&dtml',
                '100% (sure)', '&amp; &lt; &#39;', '-->', ']', '[', '\\']
 
 
+# near-miss tags: one character inserted at every position of a real tag of
+# each syntax.  Whatever the reference lexer does not recognise as (the
+# beginning of) a tag any more is literal text and has to come out verbatim.
+NEAR_BASES = ['%(x)s', '%(x)d', '%(x)5.2f', '%(x fmt=a)s', '%(if x)[',
+              '%(if x)]', '%(else)!', '<dtml-var x>', '</dtml-if>',
+              '<!--#var x-->', '<!--#/if-->', '&dtml-x;', '&dtml.url-x;']
+NEAR_SEPS = [' ', '-', '+', '#', '.', '0', '\n', '\t', '_', '/', ';', '!',
+             'é', '(', ')', '%', '&', '<', '"']
+
+
+def near_miss_soups():
+    seen = set()
+    for base in NEAR_BASES:
+        for i in range(1, len(base) + 1):
+            for sep in NEAR_SEPS:
+                t = base[:i] + sep + base[i:]
+                for text in (t, 'growth 12' + t + ' of sales',
+                             t + 'o', t + ' d'):
+                    if text not in seen:
+                        seen.add(text)
+                        yield text
+
+
 def plan(tier, seed):
     n = 500 if tier == "quick" else 6000
     return [dict(seed=seed * 1000 + i, n=n) for i in range(16)] + \
@@ -330,6 +353,13 @@ def run_shard(shard):
                      distinct_by_construction=True)
             for b, msg in fails:
                 acc.fail(b, case, msg)
+        for text in near_miss_soups():
+            case = dict(kind='soup', text=text)
+            fails, nt = check_soup(case)
+            acc.case(case, nt, klass='near-miss-soup',
+                     distinct_by_construction=True)
+            for b, msg in fails:
+                acc.fail(b + ':near-miss', case, msg)
         return acc.result()
     strat = strategy()
 
